@@ -5,7 +5,8 @@ reply.  Stages: banner, ehlo, helo, starttls, tls (the handshake itself), auth, 
 eod (SMTP) / eod<i> (LMTP, i = index among the accepted recipients), rset, quit.
 Outcomes: '2' success, '4' -> 451, '5' -> 550, '500' (EHLO: triggers HELO fallback), 'malformed'
 (a line that is no reply), 'badcode' (three digits outside 1xx-5xx), 'disconnect', 'stall' (never
-answer), ('trickle', dt) (one byte of the reply every dt seconds), 'stall-after-334' (AUTH).
+answer), ('trickle', dt) (one byte of the reply every dt seconds), ('delay', dt) (the normal reply, dt
+seconds late), '251' (RCPT: accepted with 251), 'stall-after-334' (AUTH).
 The peer records what it positively accepted so that the oracle can compute the truth.
 """
 import gevent
@@ -96,6 +97,14 @@ class ScriptedPeer(object):
         code = CODES[base]
         if out == '2':
             lines = multi if multi is not None else [text]
+        elif out == '251':
+            code, lines = '251', ['2.1.5 user not local; will forward']
+            self._send(self._format(code, lines))
+            return '2'
+        elif isinstance(out, (tuple, list)) and out[0] == 'delay':
+            gevent.sleep(out[1])            # the whole (normal) reply, late
+            self._send(self._format(code, multi if multi is not None else [text]))
+            return '2'
         elif out == '4':
             code, lines = '451', ['4.3.0 scripted temporary failure at %s' % stage]
         elif out == '5':
